@@ -53,3 +53,25 @@ Fixpoint chain_ok (flat : bool) (ms : list mangler) : Prop :=
   | [] => True
   | m :: r => stage_ok flat m /\ chain_ok (flat || is_flat m) r
   end.
+
+(* ---- the types the by-name specification theorems quantify over: pointerified
+   shape whose leaves are scalars, pointers, maps and slices/arrays of
+   non-struct elements (no interface leaves, no slices of structs) ---- *)
+Definition leaf_ok (t : ty) : bool :=
+  match t with
+  | TPtr (TStruct _ _) | TPtr (TPtr _) => false
+  | TPtr _ | TMap _ _ _ => true
+  | TSlice e _ => negb (kind_struct e)
+  | _ => false
+  end.
+
+Fixpoint simple_ty (t : ty) : bool :=
+  match t with
+  | TPtr (TStruct fs _) => simple_fields fs
+  | _ => leaf_ok t
+  end
+with simple_fields (fs : fields) : bool :=
+  match fs with
+  | FNil => true
+  | FCons _ _ _ t r => simple_ty t && simple_fields r
+  end.
